@@ -18,6 +18,22 @@
 mod verif_c08_twins {
     use super::*;
 
+    /// Checks every listed clause on its own path: Kani's `assert!` also ASSUMES its condition afterwards, so in a
+    /// plain sequence a failing earlier clause would hide a failing later one (and with it the later obligation).
+    macro_rules! check_each {
+        ($( $c:expr => $m:literal ),+ $(,)?) => {{
+            let pick: u8 = kani::any();
+            let mut k: u8 = 0;
+            $(
+                if pick == k {
+                    assert!($c, $m);
+                }
+                k += 1;
+            )+
+            let _ = k;
+        }};
+    }
+
     /// bits 12..51
     const ADDR_MASK: u64 = 0x000f_ffff_ffff_f000;
     /// bits 0..11 and 52..63: the flag domain of the property
@@ -49,7 +65,10 @@ mod verif_c08_twins {
     #[kani::proof]
     fn c08_twin_entry_new() {
         kani::cover!(true, "c08_twin_entry_new: reachable");
-        assert!(PageTableEntry::new().entry == 0, "C08.PageTableEntry_new.all_zero: a new entry is the zero word");
+        check_each! {
+            PageTableEntry::new().entry == 0
+                => "C08.PageTableEntry_new.all_zero: a new entry is the zero word",
+        }
     }
 
     //@ obligation C08 C08.PageTableEntry_flags.returns_stored_flag_bits
@@ -58,14 +77,12 @@ mod verif_c08_twins {
         let raw: u64 = kani::any();
         kani::cover!(true, "c08_twin_entry_flags: reachable");
         let f = entry_of(raw).flags().bits();
-        assert!(
-            f == raw & PageTableFlags::all().bits(),
-            "C08.PageTableEntry_flags.returns_stored_flag_bits: the raw word restricted to the defined flags"
-        );
-        assert!(
-            f & DOMAIN == raw & DOMAIN,
-            "C08.PageTableEntry_flags.returns_stored_flag_bits: bits 0-11 and 52-63 are returned as stored"
-        );
+        check_each! {
+            f == raw & PageTableFlags::all().bits()
+                => "C08.PageTableEntry_flags.returns_stored_flag_bits: the raw word restricted to the defined flags",
+            f & DOMAIN == raw & DOMAIN
+                => "C08.PageTableEntry_flags.returns_stored_flag_bits: bits 0-11 and 52-63 are returned as stored",
+        }
     }
 
     //@ obligation C08 C08.PageTableEntry_addr.returns_stored_address
@@ -74,10 +91,10 @@ mod verif_c08_twins {
         let raw: u64 = kani::any();
         kani::cover!(true, "c08_twin_entry_addr: reachable");
         let a = entry_of(raw).addr().as_u64();
-        assert!(
-            a == raw & ADDR_MASK && a < TWO52 && a % 4096 == 0,
-            "C08.PageTableEntry_addr.returns_stored_address: bits 12-51 of the raw word, a 4 KiB-aligned address below 2^52"
-        );
+        check_each! {
+            a == raw & ADDR_MASK && a < TWO52 && a % 4096 == 0
+                => "C08.PageTableEntry_addr.returns_stored_address: bits 12-51 of the raw word, a 4 KiB-aligned address below 2^52",
+        }
     }
 
     // mode A: requires wf_p(addr) && 4 KiB aligned
@@ -91,14 +108,12 @@ mod verif_c08_twins {
         kani::cover!(true, "c08_twin_entry_set_addr_exact: reachable");
         let mut e = entry_of(prior);
         e.set_addr(PhysAddr::new(a), flags);
-        assert!(
-            e.entry == a | x,
-            "C08.PageTableEntry_set_addr.stores_exactly_both_or_panics: the entry becomes addr | flags"
-        );
-        assert!(
-            fields_read_back(e.entry, a, x),
-            "C08.PageTableEntry_set_addr.stores_exactly_both_or_panics: address and domain flags are stored independently"
-        );
+        check_each! {
+            e.entry == a | x
+                => "C08.PageTableEntry_set_addr.stores_exactly_both_or_panics: the entry becomes addr | flags",
+            fields_read_back(e.entry, a, x)
+                => "C08.PageTableEntry_set_addr.stores_exactly_both_or_panics: address and domain flags are stored independently",
+        }
     }
 
     // mode B: requires wf_p(addr) only; returning implies 4 KiB aligned
@@ -129,14 +144,12 @@ mod verif_c08_twins {
         kani::cover!(true, "c08_twin_entry_set_frame: reachable");
         let mut e = entry_of(prior);
         e.set_frame(frame, flags);
-        assert!(
-            e.entry == a | x,
-            "C08.PageTableEntry_set_frame.stores_exactly_both: the entry becomes frame start | flags"
-        );
-        assert!(
-            fields_read_back(e.entry, a, x),
-            "C08.PageTableEntry_set_frame.stores_exactly_both: address and domain flags are stored independently"
-        );
+        check_each! {
+            e.entry == a | x
+                => "C08.PageTableEntry_set_frame.stores_exactly_both: the entry becomes frame start | flags",
+            fields_read_back(e.entry, a, x)
+                => "C08.PageTableEntry_set_frame.stores_exactly_both: address and domain flags are stored independently",
+        }
     }
 
     //@ obligation C08 C08.PageTableEntry_set_flags.keeps_address_sets_flags
@@ -147,14 +160,12 @@ mod verif_c08_twins {
         kani::cover!(true, "c08_twin_entry_set_flags: reachable");
         let mut e = entry_of(prior);
         e.set_flags(flags);
-        assert!(
-            e.entry == (prior & ADDR_MASK) | x,
-            "C08.PageTableEntry_set_flags.keeps_address_sets_flags: the entry becomes (old address bits) | flags"
-        );
-        assert!(
-            fields_read_back(e.entry, prior & ADDR_MASK, x),
-            "C08.PageTableEntry_set_flags.keeps_address_sets_flags: the address is kept and the domain flags are stored"
-        );
+        check_each! {
+            e.entry == (prior & ADDR_MASK) | x
+                => "C08.PageTableEntry_set_flags.keeps_address_sets_flags: the entry becomes (old address bits) | flags",
+            fields_read_back(e.entry, prior & ADDR_MASK, x)
+                => "C08.PageTableEntry_set_flags.keeps_address_sets_flags: the address is kept and the domain flags are stored",
+        }
     }
 
     // Index<PageTableIndex>: requires wf_idx(index); ensures *r == self.entries[index.0].
@@ -169,9 +180,9 @@ mod verif_c08_twins {
         kani::cover!(true, "c08_twin_table_index_by_table_index: reachable");
         let idx = PageTableIndex(i);
         let r: &PageTableEntry = &t[idx];
-        assert!(
-            core::ptr::eq(r, &t.entries[i as usize]),
-            "C08.PageTable_index_by_table_index.same_slot: table[PageTableIndex(i)] is slot i of the entry array"
-        );
+        check_each! {
+            core::ptr::eq(r, &t.entries[i as usize])
+                => "C08.PageTable_index_by_table_index.same_slot: table[PageTableIndex(i)] is slot i of the entry array",
+        }
     }
 }
